@@ -1,2 +1,2 @@
 SPECIFICATION TSpec
-INVARIANTS SReplies SPredicted SEcho SOther SPair
+INVARIANTS SReplies SPredicted SEcho SOther SPair SStage
